@@ -88,6 +88,13 @@ class World(object):
                 self._add(o, k, tt)
         elif kind == 'unhold':
             self.held = []
+        elif kind == 'printall':
+            # print every live diagram as a root (printing must not influence later printing)
+            for e in self.pool:
+                str(e[0])
+                str(e[0].root)
+            for h in self.held:
+                str(h)
         elif n == 0:
             return
         elif kind == 'bin':
@@ -370,6 +377,10 @@ def machine_shard(st, shard, nshards, payload):
         def unhold(self):
             self._do(['unhold'])
 
+        @rule()
+        def print_everything(self):
+            self._do(['printall'])
+
         @invariant()
         def canonical(self):
             if self.world is None:
@@ -430,7 +441,7 @@ def run(ctx):
     ctx.rule = ('Hypothesis rule-based machines; each draws a variable set (3-5 variables; plain, underscore/unicode, very '
                 'long names) and two orderings of it sharing the '
                 'global node table and runs up to N steps of parse (3 styles) / lambda parse / & | ^ '
-                '/ ~ / restrict / Shannon composition directly from BDDNode objects (with and without check_ordering) / '
+                '/ ~ / restrict / print every live diagram / Shannon composition directly from BDDNode objects (with and without check_ordering) / '
                 'rebuild from str / alias / drop / drop-all-but-one / gc.collect / '
                 'hold an inner node while dropping its OBDD / release held nodes / re-create a dropped '
                 'function from its minterm form.  The model of each '
